@@ -42,6 +42,9 @@ COp = VR.Compare.Operator
 UOp = VR.UnaryOp.Operator
 
 C.inline("cohdl._core._type_qualifier:TypeQualifierBase.decay")
+if hasattr(VR, "_write_numeric_operands"):
+    # helper of BinOp.write / Compare.write (operand texts; negative integers next to unsigned operands): part of the writers
+    I.register_inline(VR._write_numeric_operands)
 C.inline("cohdl._compiler.backend.vhdl._vhdl_repr:VhdlScope.format_cast")
 
 
@@ -235,7 +238,34 @@ con = contract("cohdl._compiler.backend.vhdl._vhdl_repr:BinOp.write", PROPS)
 for op, fn in ARITH.items():
     for K in (Unsigned, Signed):
         add_case(con, f"{op.name}:{KNAME[K]},{KNAME[K]}", VR.BinOp, op, [vec_operand(K, "a"), vec_operand(K, "b")], fn)
-        add_case(con, f"{op.name}:{KNAME[K]},int", VR.BinOp, op, [vec_operand(K, "a"), int_operand("b")], fn)
+        add_case(con, f"{op.name}:{KNAME[K]},int", VR.BinOp, op, [vec_operand(K, "a"), int_operand("b")], fn).custom_replay = "contracts.c02_ops.replay_negative_int"
+
+
+_NEGATIVE_INT_DESIGN = '''
+import re
+from cohdl import Entity, Port, Unsigned, Bit, std
+class E(Entity):
+    a = Port.input(Unsigned[4])
+    s = Port.output(Unsigned[4])
+    d = Port.output(Unsigned[4])
+    p = Port.output(Unsigned[8])
+    def architecture(self):
+        @std.concurrent
+        def logic():
+            self.s <<= self.a + (-1)      # defined: wraps modulo 16 (Unsigned[4](3) + (-1) == 2)
+            self.d <<= self.a - (-1)
+            self.p <<= self.a * (-1)
+t = std.VhdlCompiler.to_string(E)
+bad = re.findall(r"\\(a\\) [-+*] \\(-\\d+\\)", t)
+print("NEGATIVE-NATURAL" if bad else "NATURAL", bad or re.findall(r"\\(a\\) [-+*] \\(\\d+\\)", t))
+'''
+
+
+def replay_negative_int(payload):
+    from contracts.c06_extra import _run_design
+
+    rc, out = _run_design(_NEGATIVE_INT_DESIGN)
+    return {"reproduced": rc == 0 and "NEGATIVE-NATURAL" in out, "detail": out[-300:]}
 
 
 # ---- BinOp: element-wise operators (operands of the same type and width, result of that type) -------------------
